@@ -59,10 +59,15 @@ package transport
 //@     invariant loopFresh(errs) || sameObj(errs, loopOld(errs))
 //@     decreases 6 - retry
 
+// asyncDial: starts the dial goroutine once and returns what it hands over, or the caller's own cancellation cause
 //@ func (t *ReuseConnTransport) asyncDial(ctx context.Context) (c *reusableConn, err error)
-//@   trusted
-//@   requires t != nil
+//@   props C06 C18
+//@   requires t != nil && ctx != nil && t.conns != nil && t.idleConns != nil && !sameObj(t.idleConns, t.conns) && t.logger != nil && t.ctx != nil && t.opts.DialContext != nil
+//@   ghost nGo int = 0
+//@   oncall go: nGo = nGo + 1
+//@   assumecall Cause: ret0 != nil -- a context that is done has a cause
 //@   modifies nothing
+//@   ensures [C06:one-dial-goroutine] nGo == 1
 //@   ensures (err == nil) == (c != nil)
 //@   ensures c != nil ==> c.c != nil && c.idleTimer != nil && c.serving
 //@ func joinErr(errs []error) (err error)
@@ -78,7 +83,7 @@ package transport
 // is a private copy of the query.
 //@ func (t *ReuseConnTransport) ExchangeContext(ctx context.Context, m []byte) (r *dnsmsg.Msg, err error)
 //@   props C06 C20 C01
-//@   requires t != nil && ctx != nil && rtInv(t) && t.logger != nil
+//@   requires t != nil && ctx != nil && rtInv(t) && t.logger != nil && t.ctx != nil && t.opts.DialContext != nil
 //@   ghost nTry int = 0
 //@   oncall exchangeConnCtx?: nTry = nTry + 1
 //@   modifies obj(t.idleConns), obj(t.conns), field(transport.reusableConn.serving)
@@ -412,22 +417,53 @@ package transport
 //@   trusted
 //@   modifies nothing
 
-// The dial goroutine: a connection whose dial succeeded is either registered with the transport (so Close
-// will close it) or closed on the spot when the transport was closed meanwhile - never dropped.
+// what the dial goroutine hands to the waiting caller: a connection or an error, never both, never neither; a
+// connection handed over is usable and already marked as serving (so nobody else can pick it up)
+//@ chaninv asyncDial.dialRes: (v.err == nil) == (v.c != nil) && (v.c != nil ==> v.c.c != nil && v.c.idleTimer != nil && v.c.serving)
+
+// The dial goroutine: one dial through the configured dialer, bounded by the transport's own context; a connection
+// whose dial succeeded is wrapped once, marked serving and then either registered with the transport (so Close
+// will close it) or - when the transport was closed meanwhile - closed on the spot and reported as
+// ErrClosedTransport; it is then either handed to the caller or, when the caller has gone, given back to the
+// transport as a clean connection - never dropped.
 //@ closure ReuseConnTransport.asyncDial$1
-//@   props C18 C06
-//@   requires t != nil && t.conns != nil && t.idleConns != nil && !sameObj(t.idleConns, t.conns) && t.logger != nil && t.ctx != nil && callCtx != nil && t.opts.DialContext != nil
+//@   props C18 C06 C17
+//@   requires t != nil && t.conns != nil && t.idleConns != nil && !sameObj(t.idleConns, t.conns) && t.logger != nil && t.ctx != nil && callCtx != nil && t.opts.DialContext != nil && dialChan != nil
 //@   ghost gc net.Conn = nil
+//@   ghost ge error = nil
 //@   ghost grc *reusableConn = nil
+//@   ghost nDial int = 0
+//@   ghost nNew int = 0
 //@   ghost nClose int = 0
 //@   ghost nRel int = 0
+//@   ghost nSend int = 0
+//@   ghost gDialCtx context.Context = nil
 //@   dyncall DialContext: modifies nothing
+// a dialer returns a connection or an error
+//@   assumecall DialContext: (ret1 == nil) == (ret0 != nil)
+//@   aftercall WithTimeout: gDialCtx = ret0
+//@   oncall DialContext: nDial = nDial + 1
+//@   aftercall DialContext: gc = ret0
+//@   aftercall DialContext: ge = ret1
+//@   oncall newReusableConn?: nNew = nNew + 1
 //@   aftercall newReusableConn?: grc = ret0
 //@   oncall close?: nClose = nClose + 1
 //@   oncall releaseConn?: nRel = nRel + 1
+//@   oncall send?: nSend = nSend + 1
 //@   modifies *
+//@   ensures [C17:one-dial] nDial == 1
+//@   callsite WithTimeout: [C18:dial-ends-with-the-transport] arg0 == t.ctx
+//@   callsite DialContext: [C17:dial-under-the-bounded-context] arg0 == gDialCtx
+//@   callsite newReusableConn?: [C06:wraps-the-dialled-socket-once] nNew == 0 && arg0 == gc && gc != nil && arg1 == t.opts.IdleTimeout
 //@   ensures [C18:dialled-conn-registered-or-closed] grc != nil ==> nClose == 1 || (nRel == 0 && has(t.conns, grc)) || nRel == 1
+//@   ensures [C18:conn-arriving-after-close-is-closed-not-given-back] grc != nil && old(t.closed) ==> nClose == 1 && nRel == 0
+//@   ensures [C18:delivered-or-given-back] nSend + nRel <= 1 && (grc != nil && !old(t.closed) ==> nSend + nRel == 1)
 //@   callsite close?: [C18:closes-the-dialled-conn] arg0 == grc
+//@   callsite send?: [C06:to-the-waiting-caller] arg0 == dialChan
+//@   callsite send?: [C18:closed-transport-reported] grc != nil && old(t.closed) ==> arg1.c == nil && arg1.err == ErrClosedTransport
+//@   callsite send?: [C06:delivers-the-registered-serving-conn] grc != nil && !old(t.closed) ==> arg1.c == grc && has(t.conns, grc) && grc.serving && arg1.err == ge
+//@   callsite send?: [C06:dial-error-passed-on] grc == nil ==> arg1.c == nil && arg1.err == ge
+//@   callsite releaseConn?: [C18:undelivered-conn-given-back-clean] arg0 == t && arg1 == grc && grc != nil && arg2 == nil
 
 // exchangeConn: one write of the framed query, then exactly one frame is read as the reply.
 //@ func (t *ReuseConnTransport) exchangeConn(payload []byte, c *reusableConn) (r *dnsmsg.Msg, err error)
